@@ -402,7 +402,7 @@ func Select(site int, def bool, cs ...Case) int {
 	}
 	if len(ready) > 0 {
 		k := 0
-		if len(ready) > 1 && (e.spent < e.opts.Bound || len(e.points) < len(e.prefix)) {
+		if len(ready) > 1 && e.spent < e.opts.Bound {
 			k = e.pick(len(ready), KSelect)
 		}
 		i := ready[k]
